@@ -45,6 +45,7 @@ def run(ctx):
             raise F.AnchorLost("reader not found: %s" % name)
         n_readers += 1
         r1_reader(chk, fx, fx.mir[name], bodies, adt, succ)
+        r4_strict_reader(chk, fx, name)
     chk.floor("C08/R1 reply readers", n_readers, 4)
     # any other ReadXml impl that constructs one of the reply enums' success variant? (fail closed on new readers)
     reply_adts = {a for (_, a, _) in READERS}
@@ -65,22 +66,37 @@ def is_success_agg(s, adt, succ):
     return rv["k"] == "agg" and rv.get("adt") == adt and rv.get("variant") in succ
 
 
-def no_error_guard(b, bb):
-    """bb is dominated by the 'no error' edge of a predicate on an Errors value."""
+def no_error_guards(b, bb):
+    """All (description, predicate call) whose 'no error' edge dominates bb."""
+    out = []
     for c in b.calls():
         if c.is_fn("rpc::error::Errors::is_empty"):
             if b.guarded_by_call(bb, c, want=True):
-                return "Errors::is_empty"
+                out.append(("Errors::is_empty", c))
         if c.is_fn("Iterator::any") and _any_is_severity_error(b, c):
             if b.guarded_by_call(bb, c, want=False):
-                return "!errors.iter().any(severity == Error)"
+                out.append(("!errors.iter().any(severity == Error)", c))
         if c.is_fn("Iterator::all") and _all_is_not_severity_error(b, c):
             if b.guarded_by_call(bb, c, want=True):
-                return "errors.iter().all(severity != Error)"
+                out.append(("errors.iter().all(severity != Error)", c))
         pol = _helper_polarity(b, c)
         if pol is not None and b.guarded_by_call(bb, c, want=(pol == "no-error")):
-            return "%s(errors) [%s]" % (T.short(c.name(), 1), "true = no error" if pol == "no-error" else "false = no error")
-    return None
+            out.append(("%s(errors) [%s]" % (T.short(c.name(), 1), "true = no error" if pol == "no-error" else "false = no error"), c))
+    return out
+
+
+def no_error_guard(b, bb):
+    """bb is dominated by the 'no error' edge of a predicate on an Errors value."""
+    g = no_error_guards(b, bb)
+    return g[0][0] if g else None
+
+
+def accumulators_of(b, local):
+    """The Errors::new() calls a value derives from (which error list it is)."""
+    if local is None:
+        return set()
+    org = b.backward_origins(local, through_call=lambda c: not c.is_fn("Errors::new"))
+    return {(o["call"].bb, o["call"].loc()) for o in org if o["k"] == "call" and o["call"] is not None and o["call"].is_fn("Errors::new")}
 
 
 _HELPERS = {}
@@ -192,6 +208,19 @@ def r1_reader(chk, fx, root, bodies, adt, succ):
                     chk.instance("C08/R1", "success variant %s::%s constructed only on the no-error edge" % (T.short(adt, 1), s["rv"]["variant"]),
                                  b.name, loc_of(s.get("sp")), holds=g is not None, detail=g,
                                  key="C08/R1 %s success-not-guarded-by-error-state" % fn)
+                    # .. and the guard looks at every list into which this reader collects rpc-errors, not just one of them
+                    pushed = set()
+                    for p in b.calls():
+                        if p.is_fn("rpc::error::Errors::push"):
+                            pushed |= accumulators_of(b, F.op_base(p.args[0]))
+                    seen = set()
+                    for (_, gc) in no_error_guards(b, bi):
+                        seen |= accumulators_of(b, F.op_base(gc.args[0]))
+                    if g is not None and pushed:
+                        miss = sorted(x[1] for x in pushed - seen) if seen else []
+                        chk.instance("C08/R1", "the success guard covers every error list of the reader (%d)" % len(pushed), b.name, loc_of(s.get("sp")),
+                                     holds=not miss, key="C08/R1 %s success-guard-misses-an-error-list" % fn,
+                                     detail=None if not miss else "rpc-errors collected into the list created at %s do not prevent the success variant" % miss)
     if n_succ == 0:
         raise F.AnchorLost("%s constructs no success variant" % root.name)
     # pushes sharing a loop with a success construction need the `pending result is none` guard
@@ -338,3 +367,23 @@ def r3_errors_integrity(chk, fx):
             ok = name == "netconf::message::rpc::error::Errors::new" or "as std::clone::Clone>::clone" in name
             chk.instance("C08/R3", "Errors constructed only by Errors::new", name, loc_of(s.get("sp")), holds=ok,
                          key="C08/R3 Errors-built-in %s" % T.strip_generics(name))
+
+
+# ---------------------------------------------------------------------------------------------
+def r4_strict_reader(chk, fx, name):
+    """A reply counts as success when no rpc-error was *recognised* in it.  That is only sound if everything the reader does not
+    recognise fails the reply: an arm that skips unnamed elements or text hides an error reported in a wrapper element, a vendor
+    error element or a nested position.  Every loop of the reader: no lenient arm, and the catch-all arm returns Err."""
+    from . import readers as R
+    loops = [lp for lp in R.reader_loops(fx) if lp.fn == name or lp.fn.startswith(name + "::{closure")]
+    if not loops:
+        raise F.AnchorLost("no reader loop found in %s" % name)
+    for lp in loops:
+        lenient = R.lenient_arms(lp)
+        chk.instance("C08/R4", "%s rejects content it does not recognise (no arm skips an unnamed element or text)" % lp.label(), lp.fn,
+                     loc_of((lenient or [lp])[0].sp), holds=not lenient, key="C08/R4 %s skips-unrecognised-content" % lp.label(),
+                     detail=None if not lenient else "an error reported in a form or position the reader does not know is taken for success")
+        ca = [a for a in lp.arms if a.catch_all]
+        strict = bool(ca) and all("returnResult::Err(" in a.body_text() for a in ca)
+        chk.instance("C08/R4", "%s: the catch-all arm fails the reply" % lp.label(), lp.fn, loc_of((ca or [lp])[0].sp), holds=strict,
+                     key="C08/R4 %s catch-all-accepts" % lp.label())
